@@ -191,6 +191,9 @@ pub fn gen_string<T: Display>(tag_name: &str, value: &T) -> String {
     // The end marker of a CDATA section cannot be part of its content,
     // it needs to be split and distributed over two sections.
     let value = value.to_string().replace("]]>", "]]]]><![CDATA[>");
+    // Carriage returns are turned into line feeds by every XML parser unless they are
+    // written as character references, which is only possible outside of CDATA sections.
+    let value = value.replace('\r', "]]>&#13;<![CDATA[");
     format!("<{tag_name} type=\"String\"><![CDATA[{value}]]></{tag_name}>\n")
 }
 
